@@ -452,6 +452,15 @@ impl DB {
             },
         );
 
+        #[cfg(feature = "verif")]
+        if let Some(seek_charge) = maybe_seek_charge.as_ref() {
+            current_version.read().element.verif_seek_event(
+                "get",
+                &InternalKey::new_for_seeking(key.to_vec(), snapshot),
+                Some(seek_charge),
+            );
+        }
+
         if let Some(seek_charge) = maybe_seek_charge {
             let is_ready_for_compaction =
                 current_version.write().element.update_stats(&seek_charge);
